@@ -268,6 +268,7 @@ func c29Stream(r *simkit.Run, list [][]byte, enc []byte, sizeClass string) {
 
 	data := append([]byte(nil), enc...)
 	clean := kind == 0
+	truncated := false
 
 	sr := &simReader{r: r, maxChunk: []int{1, 3, 8, 64, 70000}[r.Draw("max_chunk", 0, 4)], failAt: -1, eofWith: r.Flag("eof_with_last_chunk"), empties: r.Flag("empty_reads")}
 
@@ -283,7 +284,29 @@ func c29Stream(r *simkit.Run, list [][]byte, enc []byte, sizeClass string) {
 	switch kind {
 	case 1:
 		if len(data) > 0 {
-			data = data[:r.Choose(len(data))]
+			cut := r.Choose(len(data))
+
+			// half of the cuts fall on the structure of the encoding: right after the count, right after the
+			// length prefix of an item (the body missing entirely), right after a body, or one byte off those
+			if r.Chance(1, 2) {
+				bounds := []int{8}
+				off := 8
+
+				for _, it := range list {
+					bounds = append(bounds, off+8, off+8+len(it))
+					off += 8 + len(it)
+				}
+
+				cut = bounds[r.Choose(len(bounds))] + []int{0, 0, -1, 1}[r.Choose(4)]
+				if cut < 0 || cut >= len(data) {
+					cut = r.Choose(len(data))
+				}
+
+				r.Probe("truncated_at_item_boundary")
+			}
+
+			data = data[:cut]
+			truncated = true
 			r.Fault("truncated_stream")
 		} else {
 			clean = true
@@ -304,8 +327,11 @@ func c29Stream(r *simkit.Run, list [][]byte, enc []byte, sizeClass string) {
 		}
 	}
 
-	// trailing bytes that belong to whatever follows the list on the stream
+	// trailing bytes that belong to whatever follows the list on the stream (nothing follows a cut stream)
 	trailing := r.Choose(4)
+	if truncated {
+		trailing = 0
+	}
 	sr.data = append(append([]byte(nil), data...), make([]byte, trailing)...)
 
 	r.Go("reader", func() {
@@ -389,7 +415,15 @@ func c29Frame(r *simkit.Run) {
 
 	switch kind {
 	case 1:
-		data = data[:r.Choose(len(data))]
+		cut := r.Choose(len(data))
+		if r.Chance(1, 2) { // around the lengthed bodies at the end of the frame
+			back := len(raw) + r.Choose(320)
+			if back < len(data) {
+				cut = len(data) - 1 - back
+			}
+		}
+
+		data = data[:cut]
 		r.Fault("truncated_stream")
 	case 2:
 		pos := r.Choose(len(data))
@@ -424,6 +458,11 @@ func c29Frame(r *simkit.Run) {
 			r.Fail("roundtrip", "frame", "headers read back differ")
 		}
 
+		// a cut frame only lacks a suffix: whatever is read successfully from it must be what was written
+		if kind == 1 && !c29EqualLists(hs, headers) {
+			r.Fail("unfaithful-parse", "frame:truncated-headers-accepted", "a frame cut to %d of %d bytes gave headers %q without an error; written were %q", len(data), buf.Len(), hs, headers)
+		}
+
 		for i := range lengthed {
 			var got []byte
 
@@ -438,6 +477,10 @@ func c29Frame(r *simkit.Run) {
 
 			if kind == 0 && (!called || !bytes.Equal(got, lengthed[i])) {
 				r.Fail("roundtrip", "frame", "lengthed body %d read back differs (called=%v)", i, called)
+			}
+
+			if kind == 1 && (!called || !bytes.Equal(got, lengthed[i])) {
+				r.Fail("unfaithful-parse", "frame:truncated-body-accepted", "a frame cut to %d of %d bytes gave lengthed body %d = %d bytes (called=%v) without an error; written were %d bytes", len(data), buf.Len(), i, len(got), called, len(lengthed[i]))
 			}
 		}
 
